@@ -95,8 +95,15 @@ package obfs
 //@   ensures 0 <= n && n <= len(out)
 //@   modifies out[0:len(out)]
 
+//@ ghost var posReads Int
+//@ ghost var deobfCalls Int
+//@ ghost var lastDeobfN Int
 //@ hook after call PacketConn.ReadFrom(c2, p2) (n2, a2, e2) in (*obfsPacketConn).ReadFrom
 //@   update lastInnerN = n2
+//@   update posReads = posReads + ite(n2 > 0, 1, 0)
+//@ hook after call obfuscator.Deobfuscate(ob, in, out) (n2) in (*obfsPacketConn).ReadFrom
+//@   update deobfCalls = deobfCalls + 1
+//@   update lastDeobfN = n2
 //@ hook after call obfuscator.Obfuscate(ob, in, out) (n2) in (*obfsPacketConn).WriteTo
 //@   update obfN = n2
 //@ hook call PacketConn.WriteTo(c2, b, a) in (*obfsPacketConn).WriteTo
@@ -121,9 +128,15 @@ package obfs
 //@   requires !lkHeld
 //@   ensures !lkHeld && n <= len(p)
 //@   ensures isnil(err) && n <= 0 ==> lastInnerN <= 0
+// every datagram the wrapped socket delivered (whatever its length) was handed to the
+// deobfuscator, whole; a datagram is skipped only because the deobfuscator rejected it; what is
+// returned is the deobfuscator's answer for the last datagram
+//@   ensures deobfCalls - old(deobfCalls) == posReads - old(posReads)
+//@   ensures lastInnerN > 0 ==> n == lastDeobfN
 //@   modifies any
 //@   loop 0
 //@     invariant !lkHeld && len(c.readBuf) == 2048 && c.Conn != nil && c.Obfs != nil
+//@     invariant deobfCalls - old(deobfCalls) == posReads - old(posReads)
 
 //@ func (*obfsPacketConn).WriteTo
 //@   props C13 C03
